@@ -2,6 +2,7 @@
 #pragma once
 #include <cstdint>
 #include <cstdio>
+#include <functional>
 #include <set>
 #include "../common/vcommon.hpp"
 #include "wlit.hpp"
@@ -60,6 +61,7 @@ struct CaseResult {
   int calls = 0, accepted = 0, rejected = 0, multi_candidate = 0, tie = 0, blocked_yield = 0, multiseq = 0;
   int rejected_with_live = 0, ineligible = 0, handler_not_newest = 0, forbidden_hits = 0, saturated_hits = 0;
   int reports = 0, multi_listed = 0, shortfalls = 0, nested = 0, traces = 0, oks = 0, fx_events = 0, with_events = 0;
+  int ctx_ops = 0;   // operations executed inside a catch handler or during stack unwinding
   int completed_flips = 0, seq_teardown_pending = 0, dw_events = 0, swaps = 0, moved_calls = 0, after_release_calls = 0;
   int throwing_calls = 0, tolerant = 0, trace_depth2_calls = 0, culprit_not_newest = 0;
   int call_after_destroy_dependency = 0;
@@ -496,7 +498,7 @@ class Interp {
     CallResult got = inj_got;
     int cres = 0;
     bool swap_good = true;
-    if (!injected) switch (o.kind) {
+    auto do_real = [&] { switch (o.kind) {
       case O_CREATE: { Spec s = Model::spec_of(o); s.eid = eid0; cres = real::create(s); break; }
       case O_RELEASE: real::release(o.at(0)); break;
       case O_CALL: got = real::call(o.at(0), o.at(1), o.at(2), o.at(3)); break;
@@ -517,6 +519,13 @@ class Interp {
       case O_PUSH_TRACER: real::push_tracer(o.at(0)); break;
       case O_POP_TRACER: real::pop_tracer(); break;
       case O_SWAP_REPORTER: swap_good = real::swap_reporter(o.at(0) != 0); res.swaps++; break;
+    } };
+    if (!injected) {
+      struct CtxProbe {};
+      struct AtUnwind { std::function<void()> f; ~AtUnwind() { f(); } };
+      if (o.ctx == 1) { try { throw CtxProbe{}; } catch (CtxProbe&) { do_real(); } res.ctx_ops++; }
+      else if (o.ctx == 2) { try { AtUnwind u{do_real}; throw CtxProbe{}; } catch (CtxProbe&) {} res.ctx_ops++; }
+      else do_real();
     }
     real::drain_stream_tracers();
     if (x.degrade) { res.degraded = true; stop = true; check_severity_only(); return; }
